@@ -42,6 +42,10 @@ Report(v) == IF v = {} THEN TRUE
              ELSE PrintT("VIOL " \o ToJson([props |-> v, b |-> b, l |-> l, e |-> E.e]))
 Judge(v) == Report(v) /\ bad' = bad \cup v
 
+(* C13: the HTTP rendering of the result (status 0: the operation went through the Store API) *)
+Is4xx(n) == n >= 400 /\ n <= 499
+HttpOk(st, ok, good) == IF st = 0 \/ (ok /\ st = good) \/ (~ok /\ Is4xx(st)) THEN {} ELSE {"C13"}
+
 ReEvict(h) == [h EXCEPT !.evictable = h.evictable \cup EvictableNow(h)]
 
 Reset ==
@@ -51,7 +55,8 @@ Reset ==
 
 EvAppend ==
   /\ Is("append")
-  /\ Judge(AppendVerdict(g, E.ctx, E.topic, E.ttl, E.meta, E.hash, E.ok, E.id, FrameOf(E.f)))
+  /\ Judge(AppendVerdict(g, E.ctx, E.topic, E.ttl, E.meta, E.hash, E.ok, E.id, FrameOf(E.f))
+           \cup HttpOk(E.status, E.ok, 200))
   /\ IF ~E.ok THEN UNCHANGED <<g, owed>>
      ELSE LET f == FrameOf(E.f) IN
           IF f.ttl = Eph
@@ -67,7 +72,7 @@ EvImport ==
   /\ LET f == FrameOf(E.f)
          id == E.f.id
          nul == f.topic \in NulTopics
-     IN /\ Judge(IF E.ok = nul THEN {"C05", "C20"} ELSE {})
+     IN /\ Judge((IF E.ok = nul THEN {"C05", "C20"} ELSE {}) \cup HttpOk(E.status, E.ok, 200))
         /\ IF E.ok
            THEN /\ g' = ReEvict([g EXCEPT !.acc = Put(@, id, f), !.removed = @ \ {id}, !.gone = @ \ {id}])
                 /\ imported' = imported \cup {id}
@@ -78,8 +83,9 @@ EvImport ==
 
 EvRemove ==
   /\ Is("remove")
+  /\ Judge(HttpOk(E.status, TRUE, 204))
   /\ g' = IF E.id \in DOMAIN g.acc THEN [g EXCEPT !.removed = @ \cup {E.id}] ELSE g
-  /\ UNCHANGED <<b, met, owed, lost, imported, src, bad, known>>
+  /\ UNCHANGED <<b, met, owed, lost, imported, src, known>>
 
 EvTick ==
   /\ Is("tick")
@@ -89,20 +95,22 @@ EvTick ==
 EvRead ==
   /\ Is("read")
   /\ LET ids == IdsOf(E.res) IN
-     /\ Judge(ReadVerdict(g, E.ctx, E.last, E.lim, E.res))
+     /\ Judge(ReadVerdict(g, E.ctx, E.last, E.lim, E.res) \cup HttpOk(E.status, TRUE, 200))
      /\ met' = met \cup MetBy(g, E.ctx, E.last, E.lim, ids)
      /\ g' = [g EXCEPT !.gone = @ \cup Skipped(g, E.ctx, E.last, E.lim, ids)]
   /\ UNCHANGED <<b, owed, lost, imported, src, known>>
 
 EvGet ==
   /\ Is("get")
-  /\ Judge(GetVerdict(g, E.id, E.res))
+  /\ Judge(GetVerdict(g, E.id, E.res)
+           \cup (IF E.status = 0 \/ E.status = (IF E.res = <<>> THEN 404 ELSE 200) THEN {} ELSE {"C13"}))
   /\ g' = IF E.res = <<>> /\ E.id \in Present(g) THEN [g EXCEPT !.gone = @ \cup {E.id}] ELSE g
   /\ UNCHANGED <<b, met, owed, lost, imported, src, known>>
 
 EvHead ==
   /\ Is("head")
-  /\ Judge(HeadVerdict(g, E.topic, E.ctx, E.res))
+  /\ Judge(HeadVerdict(g, E.topic, E.ctx, E.res)
+           \cup (IF E.status = 0 \/ E.status = (IF E.res = <<>> THEN 404 ELSE 200) THEN {} ELSE {"C13"}))
   /\ LET top == IF E.res = <<>> THEN NOID ELSE E.res[1].id
          newer == {j \in TopicIds(g, E.ctx, E.topic) : j > top /\ ~Expired(j, g.acc[j], g.clock)}
      IN g' = [g EXCEPT !.gone = @ \cup newer]
@@ -147,8 +155,19 @@ EvXferBegin ==
 
 EvXferEnd ==
   /\ Is("xfer_end")
-  /\ LET tgt == [i \in {i \in Present(g) : ~Expired(i, g.acc[i], g.clock)} |-> g.acc[i]] IN
+  /\ LET tgt == [i \in {i \in Present(g) \cap imported : ~Expired(i, g.acc[i], g.clock)} |-> g.acc[i]] IN
      Judge(IF tgt = src THEN {} ELSE {"C20"})
+  /\ UNCHANGED <<b, g, met, owed, lost, imported, src, known>>
+
+(* C13: a malformed or unanswerable request gets a response of the right class, changes nothing, *)
+(* and the server answers the next request                                                        *)
+EvBad ==
+  /\ Is("bad")
+  /\ Judge(IF /\ E.same /\ E.next = 200
+              /\ \/ (E.expect = "4xx" /\ Is4xx(E.status))
+                 \/ (E.expect = "404" /\ E.status = 404)
+                 \/ (E.expect = "2xx" /\ E.status >= 200 /\ E.status <= 299)
+           THEN {} ELSE {"C13"})
   /\ UNCHANGED <<b, g, met, owed, lost, imported, src, known>>
 
 (* a panic inside the code under test, or a store that does not open any more, is an  *)
@@ -167,12 +186,12 @@ EvCrash ==
 EvOther ==
   /\ l <= Len(Rec)
   /\ E.e \notin {"reset", "append", "import", "remove", "tick", "read", "get", "head", "dump", "drain",
-                 "reopen", "xfer_begin", "xfer_end", "panic", "crash"}
+                 "reopen", "xfer_begin", "xfer_end", "panic", "crash", "bad"}
   /\ l' = l + 1
   /\ UNCHANGED <<b, g, met, owed, lost, imported, src, bad, known>>
 
 Next == Reset \/ EvAppend \/ EvImport \/ EvRemove \/ EvTick \/ EvRead \/ EvGet \/ EvHead \/ EvDump
-        \/ EvDrain \/ EvReopen \/ EvXferBegin \/ EvXferEnd \/ EvPanic \/ EvCrash \/ EvOther
+        \/ EvDrain \/ EvReopen \/ EvXferBegin \/ EvXferEnd \/ EvPanic \/ EvCrash \/ EvBad \/ EvOther
 
 Spec == Init /\ [][Next]_tvars
 
